@@ -219,6 +219,87 @@ func TestBounded_C12(t *testing.T) {
 	}
 	bStat("C12.fault_cases", cases)
 	bCursorFaultsFor(t, "C12")
+	bUnmarshalFaults(t)
+}
+
+// bUnmarshalFaults: the decoding callback failing part-way through a node, on a tree that shares a
+// node cache: the failed call changes nothing, and once the fault has cleared this tree and any
+// tree opened through the same cache still hold exactly the contents.
+func bUnmarshalFaults(t *testing.T) {
+	cases := 0
+	for seed := 1; seed <= 6; seed++ {
+		r := &bRand{uint64(seed)*0xBF58476D1CE4E5B9 + 77}
+		bf := uint(2 + r.intn(3))
+		nf := bFormats[seed%2]
+		st := newBStore("mem://unmarshal-faults")
+		model := map[int]int{}
+		for i, n := 0, 12+r.intn(20); i < n; i++ {
+			model[r.intn(40)] = r.intn(3)
+		}
+		base, err := bBuild(bf, nf, st, model, 0, false)
+		if err != nil {
+			continue
+		}
+		root, err := base.MakeRoot(bctx)
+		if err != nil {
+			continue
+		}
+		for _, what := range []string{"iter", "get", "insert"} {
+			for n := 1; n <= 60; n += 1 + n/8 {
+				cache := NewNodeCache(1000)
+				count, fail := 0, true
+				cfg := bCfg(st, cache)
+				cfg.Unmarshal = func(b []byte, v interface{}) error {
+					count++
+					if fail && count == n {
+						return errInjected
+					}
+					return defaultUnmarshal(b, v)
+				}
+				m, err := root.LoadMast(bctx, cfg)
+				if err != nil {
+					continue
+				}
+				ks := bModelKeys(model)
+				k := ks[(n*7)%len(ks)]
+				var callErr error
+				p := bSafely(func() string {
+					switch what {
+					case "iter":
+						callErr = m.Iter(bctx, func(_, _ interface{}) error { return nil })
+					case "get":
+						var v int
+						_, callErr = m.Get(bctx, k, &v)
+					case "insert":
+						callErr = m.Insert(bctx, k, model[k])
+					}
+					return ""
+				})
+				fail = false
+				desc := fmt.Sprintf("seed=%d bf=%d nf=%s contents %s\n%s (key %d) with the %d-th Unmarshal callback failing, shared node cache", seed, bf, nf, bModelString(model), what, k, n)
+				if p != "" {
+					bViolation(t, "C12", "panic-unmarshal-fault", "%s\n%s", desc, p)
+					continue
+				}
+				if callErr == nil {
+					continue
+				}
+				cases++
+				if msg := bSafely(func() string { return bCompare(m, model, 41) }); msg != "" {
+					bViolation(t, "C12", "after-unmarshal-fault", "%s\nreturned %q; after the fault cleared the tree is no longer what it was: %s", desc, callErr, msg)
+					continue
+				}
+				m2, err := root.LoadMast(bctx, bCfg(st, cache))
+				if err != nil {
+					continue
+				}
+				if msg := bSafely(func() string { return bCompare(m2, model, 41) }); msg != "" {
+					bViolation(t, "C12", "cache-after-unmarshal-fault", "%s\nreturned %q; a tree opened afterwards through the same cache: %s", desc, callErr, msg)
+				}
+			}
+		}
+	}
+	bStat("C12.unmarshal_fault_cases", cases)
 }
 
 // bCursorFaults: a navigation step that fails on a store fault leaves the cursor where it was:
